@@ -538,7 +538,7 @@ impl Body {
     fn un(&mut self, op: UnOp) {
         self.repl = match &op {
             UnOp::Shuffle | UnOp::Gb(..) | UnOp::Broadcast | UnOp::Win(..) | UnOp::Extra(ExtraOp::KeyedChain(..)) | UnOp::Extra(ExtraOp::UniqueKeys) => Repl::Unlimited,
-            UnOp::Repl(r) => *r,
+            UnOp::Repl(r) | UnOp::RepartBy(r, _) => *r,
             UnOp::Gl(..) | UnOp::WinAll(..) => Repl::One,
             _ => self.repl,
         };
